@@ -870,6 +870,11 @@ def _parser_pop(ctx: "Wtp", warn_unclosed: bool) -> None:
         node.definition = node.children
         node.children = head
 
+    # A subtitle node whose end token was never processed (e.g. because a
+    # <pre> was opened inside the heading line) still gets its title list.
+    if node.kind in SUBTITLE_TO_KIND.values() and not node.largs:
+        node.largs.append([])
+
     # Remove the topmost node from the stack.  It should be on its parent's
     # children list.
     ctx.parser_stack.pop()
